@@ -25,7 +25,7 @@ RULE = (
     "names, optional filename/calcmass/expmass/ret_time and rollup-level columns, 3 label encodings, "
     "NaNs planted in 0-3 feature columns) and malformed variants, as text or Parquet (seeded row groups), "
     "parsed by read_pin with max_workers 1..8 under a seeded thread schedule and seeded column/row scan "
-    "chunk sizes. distinct = distinct (table parameters, format, knobs, workers, schedule digest); "
+    "chunk sizes; in a quarter of the scenarios the same path held another table that was parsed earlier in the same process. distinct = distinct (table parameters, format, knobs, workers, schedule digest); "
     "non-trivial = the column scan was split into >= 2 column chunks or >= 2 row chunks, or the table is "
     "a malformed variant, or NaNs were planted."
 )
@@ -40,7 +40,7 @@ REAL = ["mokapot.parsers.pin", "mokapot.tabular_data", "mokapot.dataset.OnDiskPs
         "file system (/dev/shm)"]
 STUBS = ["joblib.Parallel -> vsim.sched.SimParallel (seeded baton-passing threads)"]
 PROBES = ["col_chunks>=2", "row_chunks>=2", "identifier_own_chunk", "nan_planted", "malformed", "parquet",
-          "workers>1", "switches>0", "case_mangled", "n_feat_mod_chunk==0", "multi_rowgroup"]
+          "workers>1", "switches>0", "case_mangled", "n_feat_mod_chunk==0", "multi_rowgroup", "path_parsed_before_with_other_table"]
 
 
 def _mangle_case(rng, name):
@@ -168,9 +168,18 @@ def make_scenario(seed):
         "CHUNK_SIZE_COLUMNS_FOR_DROP_COLUMNS": rng.choice([1, 2, 3, 4, 5]) if rng.random() < 0.15 else rng.randint(6, 25),
         "CHUNK_SIZE_ROWS_FOR_DROP_COLUMNS": datagen.knob_value(rng, n_rows_guess),
     }
+    prev = None
+    if rng.random() < 0.25:
+        # the same path held ANOTHER well-formed table that was parsed earlier in this process
+        prev = dict(p)
+        prev.update(data_seed=rng.getrandbits(32), n_features=rng.randint(1, 60), malformed=None,
+                    mangle=rng.random() < 0.5, permute=rng.random() < 0.5,
+                    spec_extra=[c for c in ("filename", "ret_time", "ExpMass") if rng.random() < 0.5],
+                    level_cols=[c for c in ("ModifiedPeptide", "Precursor", "PeptideGroup") if rng.random() < 0.3])
     return {
         "property": PROPERTY,
         "seed": seed,
+        "prev_table": prev,
         "table": p,
         "format": fmt,
         "row_group": rng.choice([None, 1, 2, 7, n_rows_guess // 2 + 1]) if fmt == "parquet" else None,
@@ -191,6 +200,13 @@ def run_scenario(scn, workdir):
     table = build_table(scn["table"])
     ext = ".parquet" if scn["format"] == "parquet" else ".pin"
     path = Path(workdir) / f"input{ext}"
+    if scn.get("prev_table"):
+        world.materialise(build_table(scn["prev_table"]), path, scn["format"], scn.get("row_group"))
+        try:
+            mokapot.read_pin([path], max_workers=1)
+        except Exception:  # noqa: BLE001 - only its side effects on process state matter here
+            pass
+        path.unlink()
     world.materialise(table, path, scn["format"], scn.get("row_group"))
     mal = scn["table"].get("malformed")
     n_rows = len(table["rows"])
@@ -218,6 +234,7 @@ def run_scenario(scn, workdir):
         "case_mangled": int(bool(scn["table"]["mangle"])),
         "row_chunks>=2": int(rcs < n_rows),
         "multi_rowgroup": int(scn["format"] == "parquet" and bool(scn.get("row_group")) and scn["row_group"] < n_rows),
+        "path_parsed_before_with_other_table": int(bool(scn.get("prev_table"))),
     }
     if expected is not None:
         nf_all = len([c for c in table["columns"] if c.lower() not in
@@ -230,7 +247,7 @@ def run_scenario(scn, workdir):
     nontrivial = bool(probes.get("col_chunks>=2") or probes["row_chunks>=2"] or mal or probes["nan_planted"])
     out = {
         "status": "ok",
-        "digest": digest([scn["table"], scn["format"], scn.get("row_group"), scn["knobs"], scn["max_workers"],
+        "digest": digest([scn["table"], scn.get("prev_table"), scn["format"], scn.get("row_group"), scn["knobs"], scn["max_workers"],
                           world.sched_digest(sch)]),
         "nontrivial": nontrivial,
         "probes": probes,
@@ -293,6 +310,8 @@ def run_scenario(scn, workdir):
 
 def shrink_candidates(scn):
     p = scn["table"]
+    if scn.get("prev_table"):
+        c = clone(scn); c["prev_table"] = None; yield c
     if scn["max_workers"] > 1:
         c = clone(scn); c["max_workers"] = 1; c["sched"] = {"mode": "fifo"}; yield c
     if scn["format"] != "pin":
